@@ -147,5 +147,19 @@ CLAIMS = {
        "abandoned after 5 retries (exhaustive reported false); liveness on the implementation side is bounded-wait only (30 s return, 5 s cancel); callers in fs/layer, fs, store not exercised. "
        "Trusted: TLC, the gate scheduler and projection in harness/task.",
   technique="TLA+ spec + TLC exhaustive safety and fair liveness checks with negative controls; gated edge-cover replay into Go; TLC trace validation + property monitor of gated and free-running -race traces"),
+ "C01": dict(
+  text="Verify.tla models the verification chain of fs/reader and fs/layer: prefetch workers (one readAndCache call = Probe / ReadSrc / Decide under the RLock with the prohibit flag and "
+       "lastVerifyErr / Commit), VerifyTOC as Lock-set-prohibit-load / Unlock / compare-and-finish, SkipVerify, layer.Verify / SkipVerify on a cached layer object, on-demand reads "
+       "(cache hit unverified by design, miss = fetch -> verify -> cache -> return), passthrough merge, and source alterations at any time (valid-but-different stream, broken stream, "
+       "altered TOC). TLC checks MountImpliesToc, ServedAreGood, NoBadStaysCached, FailedReadLeavesNothing exhaustively with 5 negative controls (decision outside the lock, no abort when "
+       "prohibited, cache before verify, passthrough without verify, no re-check on a cached layer). Binding: every edge of four generation graphs is replayed through verifhook gates on "
+       "real VerifiableReader / layer objects over real gzip and zstd:chunked eStargz blobs whose alterations are produced by a concretiser (CRC-corrected payload substitution in stored "
+       "gzip members, bit flips, truncation, member swaps, re-serialised TOC with fresh footer); recorded outcomes, served values and cache probes are validated by TLC against the spec and "
+       "the formulas evaluated by the monitor; a free-running -race mode and an alteration sweep are decided by the monitor. Found and fixed: layer.Verify no-op after SkipVerify/Verify.",
+  design_ref="DESIGN.md 3 (C01), 2.4, 2.5, 7 item 5",
+  note="Bounded: 2 chunks of one file, <=2 workers, <=2 reads, <=2 alterations, <=3 Verify calls. Memory metadata store only (db store, external-TOC compression and the FUSE node path "
+       "are not driven); tampering with uncompressed cache files at rest is out of scope (hits are unverified by design); concurrent Mounts racing on one layer object not modelled; "
+       "'valid different payload' substitution only for stored gzip; a wrong-digest-field mutant fails closed and shows as exit 2. Trusted: TLC, the concretiser and projection in harness/fs/reader.",
+  technique="TLA+ spec + TLC exhaustive check with negative controls; gated edge-cover replay of the TLC state graphs into Go over really altered blobs; TLC trace validation + property monitor; monitor-only free run and alteration sweep"),
 }
 NOT_APPLICABLE = {}
